@@ -475,6 +475,8 @@ func (c *Collection) CreateIndex(name string, config IndexConfig) (string, error
 		if config.Equal(index.Config()) {
 			return name, nil
 		}
+
+		return "", fmt.Errorf("existing index %q has a different configuration", name)
 	}
 
 	// check duplicate
